@@ -4,8 +4,12 @@ import (
 	"bytes"
 	"crypto/elliptic"
 	"crypto/sha512"
+	"encoding/base64"
+	"encoding/hex"
+	"encoding/pem"
 	"fmt"
 	"math/big"
+	"strings"
 
 	"github.com/cloudflare/circl/oprf"
 
@@ -456,6 +460,13 @@ func (m *c16) ops() []*c16Op {
 			// the well-framed hostile encodings one after the other (a counter, so that every one of them is used)
 			pa, ra := spkiAlgs()
 			all := rebuildTokenKeyDER(r, rk[0].N, rk[0].E, pa, ra)
+			// and the textual spellings under which token keys travel in issuer directories and configuration files: not
+			// DER, but a decoder that is lenient about them still may not write into its argument
+			for _, legacy := range []bool{false, true} {
+				der, _ := util.MarshalTokenKey(&rk[0].PublicKey, legacy)
+				all = append(all, tokenKeyTextForms(der)...)
+			}
+			hostileDERCount = len(all)
 			return [][]byte{all[hostileDERIndex%len(all)]}
 		},
 		call: func(a [][]byte) []byte {
@@ -815,6 +826,28 @@ func c16FixedT5(iss5 *type5.BatchedPrivateIssuer) type5.BatchedPrivateTokenReque
 }
 
 var hostileDERIndex int
+var hostileDERCount = 140
+
+// tokenKeyTextForms returns textual encodings of a DER token key.
+func tokenKeyTextForms(der []byte) [][]byte {
+	var out [][]byte
+	for _, enc := range []*base64.Encoding{base64.StdEncoding, base64.URLEncoding, base64.RawStdEncoding, base64.RawURLEncoding} {
+		t := []byte(enc.EncodeToString(der))
+		out = append(out, t, append(clone(t), '\n'), append([]byte("  "), append(clone(t), '\r', '\n')...))
+	}
+	out = append(out, []byte(hex.EncodeToString(der)), []byte(strings.ToUpper(hex.EncodeToString(der))))
+	out = append(out, pem.EncodeToMemory(&pem.Block{Type: "PUBLIC KEY", Bytes: der}))
+	// base64 in lines of 64 characters, without the armour
+	b := base64.StdEncoding.EncodeToString(der)
+	var lines []byte
+	for len(b) > 64 {
+		lines = append(lines, b[:64]...)
+		lines = append(lines, '\n')
+		b = b[64:]
+	}
+	out = append(out, append(lines, b...))
+	return out
+}
 
 func runC16(c *core.Ctx) {
 	m := &c16{c: c, curve: elliptic.P384()}
@@ -823,7 +856,7 @@ func runC16(c *core.Ctx) {
 	for _, op := range ops {
 		n := reps
 		if op.name == "util.UnmarshalTokenKey(hostile DER)" {
-			n = max(reps, 110) // at least once around the list of hostile encodings
+			n = max(reps, hostileDERCount) // at least once around the list of hostile encodings
 		}
 		for rep := 0; rep < n; rep++ {
 			hostileDERIndex = rep
